@@ -899,7 +899,7 @@ pub fn gen_val(r: &mut Rng, t: &Ty, depth: u32) -> V {
     }
 }
 
-/// does the value contain something the current code loses across the wire?  (mirror of `Spec.Serde.wireSafe`)
+/// does the value contain what used to be lost across the wire before the fixes 19beadb / 807e280?
 fn wire_unsafe(v: &V) -> (bool, bool) {
     // (has a char, has a non-u64 integer outside the i32 range)
     let mut c = false;
@@ -996,14 +996,19 @@ pub fn mutate(r: &mut Rng, t: &OwnedTerm) -> OwnedTerm {
     }
     match t {
         OwnedTerm::Integer(i) => match r.below(4) {
-            0 if *i >= 0 => {
-                let mut d = (*i as u64).to_le_bytes().to_vec();
-                if r.chance(1, 2) {
-                    while d.last() == Some(&0) {
-                        d.pop();
+            0 => {
+                // the same number as a big integer: minimal, padded to 8, or padded beyond 8 digits
+                let mut d = i.unsigned_abs().to_le_bytes().to_vec();
+                match r.below(3) {
+                    0 => {
+                        while d.last() == Some(&0) {
+                            d.pop();
+                        }
                     }
+                    1 => {}
+                    _ => d.extend_from_slice(&[0, 0]),
                 }
-                OwnedTerm::BigInt(BigInt::new(false, d))
+                OwnedTerm::BigInt(BigInt::new(*i < 0, d))
             }
             1 => OwnedTerm::Integer(i.wrapping_add(*r.pick(&[1i64, -1, 256, -256, 1 << 32]))),
             2 => OwnedTerm::Float(*i as f64),
@@ -1524,13 +1529,11 @@ where
     match std::panic::catch_unwind(std::panic::AssertUnwindSafe(|| erltf_serde::to_bytes(c))) {
         Ok(Ok(b)) => {
             let (wire, wirev) = show(std::panic::catch_unwind(|| erltf_serde::from_bytes::<T>(&b)));
-            let class = if wire == "err" && cu {
-                "kf-c15-wire-char"
-            } else if wire == "err" && wu {
-                "kf-c15-wire-wide-int"
-            } else {
-                "gen"
-            };
+            // (formerly failing: a `char`, a non-u64 integer outside the i32 range — now ordinary checks)
+            let class = "gen";
+            if cu || wu {
+                ctx.count("wire_cases_formerly_failing");
+            }
             if ordered {
                 ctx.tie("derived", &format!("c15bytes {} {}", tt, vt), &okp(&wire));
                 ctx.prop(class, &format!("c15rt wire {} {} {}", tt, vt, wire), "ok");
@@ -1746,18 +1749,13 @@ fn dyn_case(ctx: &mut Ctx, ty: &Ty, v: &V) {
             }
             let wire = dyn_from_bytes(ty, &b);
             ctx.tie("gen", &format!("c15bytes {} {}", tt, vt), &wire);
-            let class = if wire == "err" && cu {
-                "kf-c15-wire-char"
-            } else if wire == "err" && wu {
-                "kf-c15-wire-wide-int"
-            } else {
-                "gen"
-            };
+            // (formerly failing: a `char`, a non-u64 integer outside the i32 range — now ordinary checks)
+            let class = "gen";
+            if cu || wu {
+                ctx.count("wire_cases_formerly_failing");
+            }
             ctx.prop(class, &format!("c15rt wire {} {} {}", tt, vt, bare(&wire)), "ok");
             ctx.count(if wire.starts_with("ok") { "wire_ok" } else { "wire_err" });
-            if wire == "err" && (cu || wu) {
-                ctx.count("wire_err_known_cause");
-            }
         }
         _ => {
             ctx.tie("gen", &format!("c15bytes {} {}", tt, vt), "encerr");
@@ -1777,7 +1775,7 @@ fn dyn_case(ctx: &mut Ctx, ty: &Ty, v: &V) {
     }
 }
 
-/// the witnesses of the findings, fixed (also proved in Props/C15.lean)
+/// the former witnesses of the two fixed findings, and edge terms for `integer_term_as` / `deserialize_char`
 fn witnesses(ctx: &mut Ctx) {
     let cases: Vec<(Ty, V)> = vec![
         (Ty::Int(IntTy::I64), V::Int(IntTy::I64, 1 << 40)),
@@ -1793,6 +1791,82 @@ fn witnesses(ctx: &mut Ctx) {
     ];
     for (t, v) in cases {
         dyn_case(ctx, &t, &v);
+    }
+    // BigInt-shaped and Binary-shaped edge terms for every integer type / char
+    let big = |neg: bool, d: Vec<u8>| OwnedTerm::BigInt(BigInt::new(neg, d));
+    let mut terms: Vec<OwnedTerm> = vec![
+        big(false, vec![]),
+        big(true, vec![]),
+        big(true, vec![0]),
+        big(true, vec![0, 0, 0, 0, 0, 0, 0, 0, 0, 0]),
+        big(false, vec![5]),
+        big(true, vec![5]),
+        big(false, vec![5, 0, 0]),
+        big(false, vec![5, 0, 0, 0, 0, 0, 0, 0, 0, 0, 0, 0]),
+        big(true, vec![128]),
+        big(true, vec![129]),
+        big(false, vec![128]),
+        big(false, vec![255]),
+        big(false, vec![0, 1]),
+        big(true, vec![0, 128]),
+        big(true, vec![1, 128]),
+        big(false, vec![255, 255]),
+        big(false, vec![0, 0, 1]),
+        big(true, vec![0, 0, 0, 128]),
+        big(true, vec![1, 0, 0, 128]),
+        big(false, vec![255, 255, 255, 127]),
+        big(false, vec![0, 0, 0, 128]),
+        big(false, vec![255, 255, 255, 255]),
+        big(false, vec![0, 0, 0, 0, 1]),
+        big(false, vec![0, 0, 0, 0, 0, 1]),
+        big(true, vec![0, 0, 0, 0, 0, 0, 0, 128]),
+        big(true, vec![0, 0, 0, 0, 0, 0, 0, 128, 0]),
+        big(true, vec![1, 0, 0, 0, 0, 0, 0, 128]),
+        big(false, vec![0, 0, 0, 0, 0, 0, 0, 128]),
+        big(false, vec![255, 255, 255, 255, 255, 255, 255, 127]),
+        big(false, vec![255, 255, 255, 255, 255, 255, 255, 255]),
+        big(true, vec![255, 255, 255, 255, 255, 255, 255, 255]),
+        big(false, vec![255, 255, 255, 255, 255, 255, 255, 255, 0, 0]),
+        big(false, vec![0, 0, 0, 0, 0, 0, 0, 0, 1]),
+        big(true, vec![0, 0, 0, 0, 0, 0, 0, 0, 1]),
+        big(false, vec![0, 0, 0, 0, 0, 0, 0, 0, 1, 0]),
+        big(false, vec![1; 9]),
+        big(false, vec![7; 300]),
+        OwnedTerm::Integer(i64::MIN),
+        OwnedTerm::Integer(i64::MAX),
+        OwnedTerm::Float(5.0),
+    ];
+    for _ in 0..40 {
+        let n = *ctx.rng.pick(&[1usize, 2, 4, 7, 8, 8, 9, 10]);
+        let mut d = ctx.rng.bytes(n);
+        if ctx.rng.chance(1, 2) {
+            let z = ctx.rng.below(4) as usize;
+            d.extend(std::iter::repeat(0u8).take(z));
+        }
+        terms.push(big(ctx.rng.chance(1, 2), d));
+    }
+    for k in IntTy::ALL {
+        for t in &terms {
+            let res = dyn_from_term(&Ty::Int(k), t);
+            ctx.count(if res.starts_with("ok") { "bigint_edge_ok" } else { "bigint_edge_err" });
+            ctx.tie("edge", &format!("c15de {} {}", k.text(), term_text(t)), &res);
+        }
+    }
+    let bins: Vec<Vec<u8>> = vec![
+        vec![], b"a".to_vec(), b"ab".to_vec(), "é".as_bytes().to_vec(), "éa".as_bytes().to_vec(), "😀".as_bytes().to_vec(),
+        "😀😀".as_bytes().to_vec(), vec![0xff], vec![0xc3], vec![0xf0, 0x9f, 0x98], vec![0xed, 0xa0, 0x80], vec![0],
+        vec![0xf4, 0x8f, 0xbf, 0xbf], vec![0xf4, 0x90, 0x80, 0x80], vec![0xc0, 0x80],
+    ];
+    for b in bins {
+        let mut ts = vec![OwnedTerm::Binary(b.clone())];
+        if let Ok(s) = String::from_utf8(b) {
+            ts.push(OwnedTerm::String(s.clone()));
+            ts.push(OwnedTerm::Atom(Atom::new(s)));
+        }
+        for t in ts {
+            let res = dyn_from_term(&Ty::Char, &t);
+            ctx.tie("edge", &format!("c15de char {}", term_text(&t)), &res);
+        }
     }
     // exhaustive: every integer type at every power-of-two boundary and its neighbours
     for k in IntTy::ALL {
